@@ -15,7 +15,8 @@ from ..vloop import VLoop
 from .c17 import gen_schedule
 
 THEOREMS = ["C18_lock_released_at_exit", "C18_others_proceed", "C18_single_version", "C18_never_mixed",
-            "C18_undisturbed_fetch_completes", "C18_fetch_examples", "C18_lock_leak_refuted", "C18_lock_leak_repaired"]
+            "C18_undisturbed_fetch_completes", "C18_fetch_examples", "C18_lock_leak_refuted", "C18_lock_leak_repaired",
+            "C18_acknowledgements_change_nothing", "C18_only_fragments_are_stored"]
 
 PRELUDE = ("From Coq Require Import List Bool Arith.\nFrom RV Require Import M_Transfer.\nImport ListNotations.\n"
            "Set Printing Width 1000000.\nSet Printing Depth 1000000.\n"
@@ -298,6 +299,42 @@ def reassembly(seed, n_seq, n_fetch):
             except Exception as err:  # noqa: BLE001
                 out["errors"].append(("feed", seq, type(err).__name__ + ": " + str(err)[:80]))
                 out["feeds"].append((seq, None, None))
+        # (c) what is OVERHEARD: fragments and write acknowledgements through the real Schedule._handle_msg, with the lock free / another zone's / this zone's
+        def ack_msg(k, total):
+            return Message(Packet.from_port(_dt.datetime.now(), f"045  I --- {CTL} 18:222222 --:------ 0404 007 0020000800{k + 1:02X}{total:02X}"))
+
+        def frag_msg(v, k):
+            frs = versions[v][1]
+            f = frs[k]
+            pl = f"00200008{len(f) // 2:02X}{k + 1:02X}{len(frs):02X}{f}"
+            return Message(Packet.from_port(_dt.datetime.now(), f"045 RP --- {CTL} 18:222222 --:------ 0404 {len(pl) // 2:03d} {pl}"))
+
+        out["heard"] = []
+        for _ in range(max(20, n_seq // 4)):
+            sched = S.Schedule(zone)
+            seq = []
+            sticky = rnd.randrange(len(versions))
+            for _ in range(rnd.randrange(1, 12)):
+                mine = rnd.random() < 0.2
+                if rnd.random() < 0.35:
+                    v = rnd.randrange(len(versions))
+                    tot = len(versions[v][1])
+                    k = rnd.randrange(tot)
+                    seq.append((mine, "ack", k, rnd.choice((tot, 0 if k == tot - 1 else tot))))
+                else:
+                    v = sticky if rnd.random() < 0.7 else rnd.randrange(len(versions))
+                    seq.append((mine, "frag", v, rnd.randrange(len(versions[v][1]))))
+            saved = gwy.tcs.zone_lock_idx
+            try:
+                for mine, kind, a, b in seq:
+                    gwy.tcs.zone_lock_idx = zone.idx if mine else rnd.choice((None, "07"))
+                    sched._handle_msg(ack_msg(a, b) if kind == "ack" else frag_msg(a, b))
+                out["heard"].append((seq, [tag(p) if p is None or "fragment" in p else -9 for p in sched._payload_set], assembled(sched)))
+            except Exception as err:  # noqa: BLE001
+                out["errors"].append(("heard", seq, type(err).__name__ + ": " + str(err)[:80]))
+                out["heard"].append((seq, None, None))
+            finally:
+                gwy.tcs.zone_lock_idx = saved
         # (b) the fetch loop from arbitrary stale sets, against a controller that holds one version throughout
         for _ in range(n_fetch):
             sched = S.Schedule(zone)
@@ -341,10 +378,33 @@ def reassembly(seed, n_seq, n_fetch):
     return out
 
 
+def handle_msg_shape() -> str:
+    """The reassembly model (vfeed) is fed FRAGMENTS only: Schedule._handle_msg must drop 0404 payloads that carry none (fix 920e60e).  AST."""
+    import ast  # noqa: PLC0415
+    import inspect  # noqa: PLC0415
+
+    import ramses_rf.system.schedule as S  # noqa: PLC0415
+
+    tree = ast.parse(inspect.getsource(S))
+    cls = next((n for n in ast.walk(tree) if isinstance(n, ast.ClassDef) and n.name == "Schedule"), None)
+    fn = next((n for n in ast.walk(cls) if isinstance(n, ast.FunctionDef) and n.name == "_handle_msg"), None) if cls else None
+    if fn is None:
+        return "Schedule._handle_msg not found"
+    upd = [i for i, n in enumerate(fn.body) if "_update_payload_set" in ast.unparse(n)]
+    if not upd:
+        return "Schedule._handle_msg no longer feeds _update_payload_set"
+    before = fn.body[:upd[0]]
+    ok = any(isinstance(n, ast.If) and "SZ_FRAGMENT not in msg.payload" in ast.unparse(n.test) and any(isinstance(x, ast.Return) for x in n.body) for n in before)
+    inline = "SZ_FRAGMENT in msg.payload" in ast.unparse(fn.body[upd[0]])
+    return "" if ok or inline else "Schedule._handle_msg hands payloads without a fragment (write acknowledgements) to _update_payload_set"
+
+
 def run(ctx: Ctx) -> None:
     logging.disable(logging.CRITICAL)
     rng = ctx.rng
     thorough = ctx.tier == "thorough"
+    why = handle_msg_shape()
+    ctx.obligation("translator:only-fragments-reach-the-reassembly", not why, "translator", why or "Schedule._handle_msg returns when the payload carries no fragment")
     ctx.rule = ("episodes on real Schedule/Zone objects with a scripted controller: zone 0 fetches its schedule with ONE fault (the "
                 "exchange raises ProtocolSendFailed / never answers so that the caller's timeout cancels the transfer / the controller "
                 "changes the schedule and bumps its counter) injected at EVERY await index in turn, then zone 1 fetches (the probe); plus "
@@ -440,6 +500,13 @@ def run(ctx: Ctx) -> None:
         ctx.violation(f"reassembly-raises:{e[0]}:{e[2].split(':')[0]}", "reassembling fragments (any versions, any order) raises instead of starting over", {"versions_fragment_counts": tot, "input": e[1], "error": e[2]}, "fragment-sequence")
     opt = lambda v: "None" if v is None else f"Some {v}"   # noqa: E731
     feed_cases = ["vshow (vfeed [None] None [" + "; ".join(f"({tot[v]}, {k}, {v})" for v, k in seq) + "])" for seq, _, _ in ra["feeds"]]
+    heard_cases = ["vshow (hear_all ([None], None) [" + "; ".join(
+        f"({'true' if mine else 'false'}, " + (f"HAck {b} {a}" if kind == "ack" else f"HFrag {tot[a]} {b} {a}") + ")" for mine, kind, a, b in seq) + "])" for seq, _, _ in ra["heard"]]
+    for seq, slots, last in ra["heard"]:
+        ctx.case(("heard", repr(seq)), any(k == "ack" for _, k, _, _ in seq), "reassembly:overheard")
+        if slots and -9 in slots:
+            ctx.violation("non-fragment-stored-as-a-fragment", "a 0404 payload that carries no fragment (the acknowledgement of a write) sits in the zone's fragment set",
+                          {"versions_fragment_counts": tot, "heard(lock mine, kind, a, b)": [list(x) for x in seq], "slots": slots}, "fragment-sequence")
     fetch_cases = ["fshow (fetch [" + "; ".join(opt(v) for v in stale) + f"] {tot[cur]} {cur})" for stale, cur, _, _ in ra["fetches"]]
     for seq, slots, last in ra["feeds"]:
         ctx.case(("feed", repr(seq)), len({v for v, _ in seq}) > 1, "reassembly:feed")
@@ -457,7 +524,7 @@ def run(ctx: Ctx) -> None:
         pre = PRELUDE + ("Definition vo (o : option nat) : nat := match o with None => 0 | Some v => S v end.\n"
                          "Definition vshow (r : vset * option nat) : list nat := vo (snd r) :: map vo (fst r).\n"
                          "Definition fshow (r : fres) : list nat := match r with Got w n => [1; w; n] | Stuck => [2] | OutOfFuel => [3] end.\n")
-        files = {"ra": pre + "".join(f"Eval vm_compute in ({c}).\n" for c in feed_cases + fetch_cases)}
+        files = {"ra": pre + "".join(f"Eval vm_compute in ({c}).\n" for c in feed_cases + fetch_cases + heard_cases)}
         rc, out = common.coq_eval("C18r", files, timeout=300)["ra"]
         if rc:
             ctx.obligation("correspondence:reassembly", False, "correspondence", out[-400:])
@@ -467,7 +534,12 @@ def run(ctx: Ctx) -> None:
             vo = lambda v: 0 if v is None else v + 1   # noqa: E731
             exp_feed = [None if slots is None else [vo(last)] + [vo(x) for x in slots] for _, slots, last in ra["feeds"]]
             exp_fetch = [[1, got, n] if got >= 0 else [9] for _, _, got, n in ra["fetches"]]
-            ok_len = len(rows) == len(exp_feed) + len(exp_fetch)
+            exp_heard = [None if slots is None else [vo(last)] + [vo(x) for x in slots] for _, slots, last in ra["heard"]]
+            ok_len = len(rows) == len(exp_feed) + len(exp_fetch) + len(exp_heard)
+            badh = [i for i, (a, b) in enumerate(zip(rows[len(exp_feed) + len(exp_fetch):], exp_heard)) if list(a) != b]
+            ctx.obligation("correspondence:overheard-traffic", ok_len and not badh, "correspondence",
+                           f"{len(badh)} of {len(exp_heard)} overheard sequences differ; first: {heard_cases[badh[0]]} model {rows[len(exp_feed) + len(exp_fetch) + badh[0]]} implementation {exp_heard[badh[0]]} (fragment counts {tot})" if badh
+                           else f"{len(exp_heard)} sequences of fragments and write acknowledgements through the real Schedule._handle_msg (lock free / another zone's / this zone's) agree with hear_all")
             badf = [i for i, (a, b) in enumerate(zip(rows, exp_feed)) if list(a) != b]
             badl = [i for i, (a, b) in enumerate(zip(rows[len(exp_feed):], exp_fetch)) if list(a) != b]
             ctx.obligation("correspondence:reassembly", ok_len and not badf, "correspondence",
@@ -477,6 +549,7 @@ def run(ctx: Ctx) -> None:
     else:
         ctx.obligation("correspondence:reassembly", False, "correspondence", "model not built")
         ctx.obligation("correspondence:fetch-loop", False, "correspondence", "model not built")
+        ctx.obligation("correspondence:overheard-traffic", False, "correspondence", "model not built")
 
 
 def replay(case: dict) -> int:
